@@ -23,6 +23,7 @@ var (
 	HQDeleted   [][]gocrawlhq.URL
 	ErrHQFailed = errors.New("verifmodel: crawl HQ answered 5xx")
 	ErrHQTimeout = errors.New("verifmodel: crawl HQ request timed out")
+	HQStall      chan struct{} // non-nil: crawl HQ does not answer any request until the harness closes the channel
 )
 
 func hqErr(ctx context.Context) error {
@@ -52,6 +53,9 @@ func HQAdd(c *gocrawlhq.Client, ctx context.Context, urls []gocrawlhq.URL, bypas
 
 func HQDelete(c *gocrawlhq.Client, ctx context.Context, urls []gocrawlhq.URL, localCrawls int) error {
 	runtime.Gosched() // network I/O: every interleaving with the other goroutines is possible here
+	if HQStall != nil {
+		<-HQStall
+	}
 	if hqFail() {
 		return hqErr(ctx)
 	}
